@@ -14,13 +14,19 @@ use serde_json::{json, Value};
 fn opt_none() -> Value {
     json!({"some": false, "v": []})
 }
+/// Shift-JIS bytes of a string mila returned; a string with no Shift-JIS form (only possible when mila decoded
+/// something it should not have) becomes [-1, code points...]: still a sequence of integers, so TLC can
+/// compare it, and never equal to a byte sequence.
+fn name_json(s: &str) -> Value {
+    match string_to_sjis(s) {
+        Some(b) => bytes_to_json(&b),
+        None => Value::Array(std::iter::once(json!(-1)).chain(s.chars().map(|c| json!(c as u32))).collect()),
+    }
+}
 fn opt_to_json(s: &Option<String>) -> Value {
     match s {
         None => opt_none(),
-        Some(s) => match string_to_sjis(s) {
-            Some(b) => json!({"some": true, "v": bytes_to_json(&b)}),
-            None => json!({"some": true, "v": [], "unencodable": s}),
-        },
+        Some(s) => json!({"some": true, "v": name_json(s)}),
     }
 }
 fn json_to_opt(v: &Value) -> Option<String> {
@@ -88,10 +94,7 @@ fn pack_value_to_map(v: &Value) -> Result<IndexMap<String, Vec<u8>>, String> {
 fn pack_map_to_value(m: &IndexMap<String, Vec<u8>>) -> Value {
     Value::Array(
         m.iter()
-            .map(|(k, b)| match string_to_sjis(k) {
-                Some(nb) => json!([bytes_to_json(&nb), bytes_to_json(b)]),
-                None => json!([{ "unencodable": k }, bytes_to_json(b)]),
-            })
+            .map(|(k, b)| json!([name_json(k), bytes_to_json(b)]))
             .collect(),
     )
 }
@@ -232,10 +235,7 @@ fn arc_extract(bytes: &[u8]) -> Value {
         Ok(Ok(m)) => {
             let mut files: Vec<(Vec<u8>, Value)> = m
                 .iter()
-                .map(|(k, b)| match string_to_sjis(k) {
-                    Some(nb) => (nb.clone(), json!([bytes_to_json(&nb), bytes_to_json(b)])),
-                    None => (k.as_bytes().to_vec(), json!([{ "unencodable": k }, bytes_to_json(b)])),
-                })
+                .map(|(k, b)| (k.as_bytes().to_vec(), json!([name_json(k), bytes_to_json(b)])))
                 .collect();
             files.sort_by(|a, b| a.0.cmp(&b.0));
             json!({"ok": true, "files": files.into_iter().map(|x| x.1).collect::<Vec<Value>>()})
@@ -260,6 +260,13 @@ fn arc_matches(got: &Value, expect: &Value) -> bool {
         got["ok"].as_bool() == Some(false)
     }
 }
+/// archive content the container layer shows for an image (None if it does not even parse)
+fn container_content(image: &[u8]) -> Option<Value> {
+    match catch(|| BinArchive::from_bytes(image, Endian::Little)) {
+        Ok(Ok(a)) => Some(masked_projection(&a, "le")),
+        _ => None,
+    }
+}
 fn build_image(content: &Value) -> Result<Vec<u8>, String> {
     match catch(|| proj::build(content).and_then(|a| a.serialize().map_err(|e| e.to_string()))) {
         Ok(r) => r,
@@ -270,7 +277,7 @@ fn build_image(content: &Value) -> Result<Vec<u8>, String> {
 fn arc_replay(cases_path: &str, out_path: &str) {
     let cases = read_ndjson(cases_path);
     let mut out = NdWriter::create(out_path);
-    let (mut n, mut bad, mut unbuildable, mut images) = (0u64, 0u64, 0u64, 0u64);
+    let (mut n, mut bad, mut unbuildable, mut images, mut container_mismatch) = (0u64, 0u64, 0u64, 0u64, 0u64);
     for (i, c) in cases.iter().enumerate() {
         n += 1;
         // (1) the image the specification derives: BinFormat!Canon(content)
@@ -285,11 +292,17 @@ fn arc_replay(cases_path: &str, out_path: &str) {
         match build_image(&c["content"]) {
             Ok(b) => {
                 if b != image {
-                    images += 1;
-                    let got = arc_extract(&b);
-                    if !arc_matches(&got, &c["expect"]) {
-                        bad += 1;
-                        out.put(&json!({"kind": "mismatch", "what": "built-image", "i": i, "case_kind": c["kind"], "got": got}));
+                    // a different image of the same content is judged only if the container layer (C01/C02, not
+                    // this property) reads the content back from it
+                    if container_content(&b).as_ref() == Some(&c["content"]) {
+                        images += 1;
+                        let got = arc_extract(&b);
+                        if !arc_matches(&got, &c["expect"]) {
+                            bad += 1;
+                            out.put(&json!({"kind": "mismatch", "what": "built-image", "i": i, "case_kind": c["kind"], "got": got}));
+                        }
+                    } else {
+                        container_mismatch += 1;
                     }
                 }
             }
@@ -299,7 +312,8 @@ fn arc_replay(cases_path: &str, out_path: &str) {
             }
         }
     }
-    out.put(&json!({"kind": "summary", "cases": n, "images": images, "mismatches": bad, "unbuildable": unbuildable}));
+    out.put(&json!({"kind": "summary", "cases": n, "images": images, "mismatches": bad, "unbuildable": unbuildable,
+                    "container_mismatch": container_mismatch}));
     out.finish();
 }
 
@@ -478,7 +492,14 @@ fn arc_record(out_path: &str, runs: usize, max_files: usize) {
     for _ in 0..runs {
         let (kind, content) = arc_random_content(&mut rng, max_files);
         match build_image(&content) {
-            Ok(img) => out.put(&json!({"kind": kind, "src": "random", "content": content, "result": arc_extract(&img)})),
+            Ok(img) => {
+                if container_content(&img).as_ref() == Some(&content) {
+                    out.put(&json!({"kind": kind, "src": "random", "content": content, "result": arc_extract(&img)}));
+                } else {
+                    out.put(&json!({"kind": "unbuildable", "src": "random", "content": content,
+                                    "result": {"unbuildable": "BinArchive::from_bytes(serialize()) does not show the content that was built (C01)"}}));
+                }
+            }
             Err(e) => out.put(&json!({"kind": "unbuildable", "src": "random", "content": content, "result": {"unbuildable": e}})),
         }
     }
